@@ -231,6 +231,7 @@ def parts(tier):
     return [
         Part("exact_division", strategy=lambda t: pc.exact_division_case(), check=check, quick=(2, 400), thorough=(4, 6000)),
         Part("narrow_overflow", strategy=lambda t: pc.narrow_overflow_case(), check=check, quick=(1, 150), thorough=(2, 2000)),
+        Part("many_columns", strategy=lambda t: pc.many_columns_case(), check=check, quick=(1, 60), thorough=(2, 800)),
         Part("chains", strategy=lambda t: pc.chain_case(guard=g), check=check, quick=(1, 400), thorough=(2, 5000)),
         Part("sparse_large", strategy=lambda t: pc.sparse_block_case(), check=check_sparse, quick=(2, 120), thorough=(4, 1500)),
         Part("small", strategy=lambda t: pc.system_case(profile="small", nonunit=True, guard=g), check=check,
